@@ -8,6 +8,58 @@ from .theory import Theory
 from . import core
 
 
+def anon_name_expr(modname, n, node):
+    """SMT term for the name AnonymousVariableTerm(n) gives its variable: the f-string assigned to self.varname in its
+    __init__ (constant text and {self.num}, {self.num + k} parts), read from the real class on every run"""
+    cls = core.module(modname).classes.get('AnonymousVariableTerm')
+    init = [f for f in (cls.body if cls else []) if isinstance(f, ast.FunctionDef) and f.name == '__init__']
+    if not init or len(init[0].args.args) != 2:
+        raise OutOfSubset('AnonymousVariableTerm.__init__ shape', node)
+    numparam = init[0].args.args[1].arg
+    tracked = {numparam}
+    val = None
+    for s_ in init[0].body:
+        if isinstance(s_, ast.Assign) and len(s_.targets) == 1 and ast.unparse(s_.targets[0]) == 'self.num' and ast.unparse(s_.value) == numparam:
+            tracked.add('self.num')
+        elif isinstance(s_, ast.Assign) and len(s_.targets) == 1 and ast.unparse(s_.targets[0]) == 'self.varname':
+            val = s_.value
+        elif isinstance(s_, ast.Expr) and isinstance(s_.value, ast.Constant):
+            continue
+        else:
+            raise OutOfSubset('statement in AnonymousVariableTerm.__init__: %s' % ast.unparse(s_)[:40], node)
+
+    def intexpr(x):
+        if ast.unparse(x) in tracked:
+            return n
+        if isinstance(x, ast.Constant) and type(x.value) is int:
+            return str(x.value) if x.value >= 0 else '(- %d)' % -x.value
+        if isinstance(x, ast.BinOp) and isinstance(x.op, (ast.Add, ast.Sub, ast.Mult)):
+            return '(%s %s %s)' % ({ast.Add: '+', ast.Sub: '-', ast.Mult: '*'}[type(x.op)], intexpr(x.left), intexpr(x.right))
+        raise OutOfSubset('AnonymousVariableTerm name expression', node)
+
+    def strexpr(x):
+        if isinstance(x, ast.Constant) and isinstance(x.value, str):
+            return smt_str(x.value)
+        if isinstance(x, ast.JoinedStr):
+            parts = []
+            for v in x.values:
+                if isinstance(v, ast.Constant):
+                    parts.append(smt_str(v.value))
+                elif isinstance(v, ast.FormattedValue) and v.conversion == -1 and v.format_spec is None:
+                    parts.append('(str.from_int %s)' % intexpr(v.value))     # str(int), A-PY-STR (non-negative here)
+                else:
+                    raise OutOfSubset('AnonymousVariableTerm name format', node)
+            return parts[0] if len(parts) == 1 else '(str.++ %s)' % ' '.join(parts)
+        if isinstance(x, ast.BinOp) and isinstance(x.op, ast.Add):
+            return '(str.++ %s %s)' % (strexpr(x.left), strexpr(x.right))
+        if isinstance(x, ast.Call) and ast.unparse(x.func) == 'str' and len(x.args) == 1:
+            return '(str.from_int %s)' % intexpr(x.args[0])
+        raise OutOfSubset('AnonymousVariableTerm name expression', node)
+    if val is None:
+        raise OutOfSubset('AnonymousVariableTerm.__init__ does not set self.varname', node)
+    return strexpr(val)
+
+
 class VisitorTheory(Theory):
     COMPS = [('avc', 'Int')]
     NO_TERM_COMPS = True
@@ -79,12 +131,8 @@ class VisitorTheory(Theory):
         if name == 'VariableTerm' and len(args) == 1 and args[0].sort == 'Str':
             return [(st, SV('VarAst', args[0].e, {'anon': 'false'}))]
         if name == 'AnonymousVariableTerm' and len(args) == 1 and args[0].sort == 'Int':
-            # class AnonymousVariableTerm: varname = f'x{num+1}'
-            cls = core.module(ex.modname).classes.get('AnonymousVariableTerm')
-            src = ast.unparse(cls) if cls else ''
-            if "self.varname = f'x{self.num + 1}'" not in src:
-                raise OutOfSubset('AnonymousVariableTerm no longer names its variable x<num+1>', e)
-            return [(st, SV('VarAst', '(str.++ "x" (str.from_int (+ %s 1)))' % args[0].e, {'anon': 'true'}))]
+            # class AnonymousVariableTerm: __init__ sets self.varname to an f-string over self.num: read it from the class
+            return [(st, SV('VarAst', anon_name_expr(ex.modname, args[0].e, e), {'anon': 'true'}))]
         if name == 'len' and len(args) == 1 and args[0].sort == 'Str':
             return [(st, SV('Int', '(str.len %s)' % args[0].e))]
         return None
